@@ -361,8 +361,8 @@ namespace Pg.C14
 /-! ## `Uniform.mutate`: the walk to the chosen node -/
 
 mutual
-  theorem mutNode_spec (fuel : Nat) : ∀ (d : DNA) (g : GSpec) (coll : Bool) (i : Nat) (s : St) (d' : DNA) (s' : St),
-      valid g d = true → mutNode fuel g coll d i s = .ok (d', s') →
+  theorem mutNode_spec (w : Where) (fuel : Nat) : ∀ (d : DNA) (g : GSpec) (coll : Bool) (i : Nat) (s : St) (d' : DNA) (s' : St),
+      valid g d = true → mutNode w fuel g coll d i s = .ok (d', s') →
       valid g d' = true ∧ s'.nextUid = s.nextUid
     | .space ds, g, coll, i, s, d', s', hv, h => by
         cases g with
@@ -373,7 +373,7 @@ mutual
           rw [pure_ok] at h2
           obtain ⟨rfl, rfl⟩ := h2
           simp only [valid] at hv
-          obtain ⟨hv', hu⟩ := mutElems_spec fuel ds es _ i s ds' s1 hv h1
+          obtain ⟨hv', hu⟩ := mutElems_spec w fuel ds es _ i s ds' s1 hv h1
           exact ⟨by simp only [valid]; exact hv', hu⟩
         | choices k cands dist srt => simp [valid] at hv
         | float lo hi => simp [valid] at hv
@@ -390,7 +390,7 @@ mutual
             obtain ⟨hlen, hall, hnd, hsrt⟩ := (valid_choices_iff _ _ _ _ _).mp hv
             have hvs : validSubs cands subs = true := by
               rw [validSubs_eq_all, List.all_eq_true]; exact hall
-            obtain ⟨hr, hu1⟩ := mutSubs_spec fuel subs cands _ s r s1 hvs h1
+            obtain ⟨hr, hu1⟩ := mutSubs_spec w fuel k subs cands _ s r s1 hvs h1
             cases r with
             | inl l =>
               simp only [] at h2 hr
@@ -415,9 +415,9 @@ mutual
           exact randomDna_spec _ _ _ _ _ h
     | .sub b v d, g, coll, i, s, d', s', hv, h => by
         cases g <;> simp [valid] at hv
-  theorem mutElems_spec (fuel : Nat) : ∀ (ds : List DNA) (es : List GSpec) (c : Bool) (i : Nat) (s : St)
+  theorem mutElems_spec (w : Where) (fuel : Nat) : ∀ (ds : List DNA) (es : List GSpec) (c : Bool) (i : Nat) (s : St)
       (ds' : List DNA) (s' : St),
-      validElems es ds = true → mutElems fuel es c ds i s = .ok (ds', s') →
+      validElems es ds = true → mutElems w fuel es c ds i s = .ok (ds', s') →
       validElems es ds' = true ∧ s'.nextUid = s.nextUid
     | [], es, c, i, s, ds', s', hv, h => by
         cases es <;> (simp only [mutElems] at h; exact ((fail_ok _ _ _).mp h).elim)
@@ -432,17 +432,17 @@ mutual
             obtain ⟨d1, s1, h1, h2⟩ := h
             rw [pure_ok] at h2
             obtain ⟨rfl, rfl⟩ := h2
-            obtain ⟨hv1, hu⟩ := mutNode_spec fuel d e c i s d1 s1 hv.1 h1
+            obtain ⟨hv1, hu⟩ := mutNode_spec w fuel d e c i s d1 s1 hv.1 h1
             exact ⟨by simp only [validElems, Bool.and_eq_true]; exact ⟨hv1, hv.2⟩, hu⟩
           · rw [bind_ok] at h
             obtain ⟨ds1, s1, h1, h2⟩ := h
             rw [pure_ok] at h2
             obtain ⟨rfl, rfl⟩ := h2
-            obtain ⟨hv1, hu⟩ := mutElems_spec fuel ds es c _ s ds1 s1 hv.2 h1
+            obtain ⟨hv1, hu⟩ := mutElems_spec w fuel ds es c _ s ds1 s1 hv.2 h1
             exact ⟨by simp only [validElems, Bool.and_eq_true]; exact ⟨hv.1, hv1⟩, hu⟩
-  theorem mutSubs_spec (fuel : Nat) : ∀ (subs : List DNA) (cands : List GSpec) (i : Nat) (s : St)
+  theorem mutSubs_spec (w : Where) (fuel k : Nat) : ∀ (subs : List DNA) (cands : List GSpec) (i : Nat) (s : St)
       (r : List DNA ⊕ Nat) (s' : St),
-      validSubs cands subs = true → mutSubs fuel cands subs i s = .ok (r, s') →
+      validSubs cands subs = true → mutSubs w fuel k cands subs i s = .ok (r, s') →
       (match r with
        | .inl l => validSubs cands l = true ∧ l.map subVal = subs.map subVal ∧ l.length = subs.length
        | .inr _ => True) ∧ s'.nextUid = s.nextUid
@@ -463,18 +463,19 @@ mutual
           | some c =>
             rw [hc] at h hv
             simp only [] at h hv
+            generalize (if w (entryInfo k b v) = true then i - 1 else i) = i1 at h
             split at h
             · rw [bind_ok] at h
               obtain ⟨d1, s1, h1, h2⟩ := h
               rw [pure_ok] at h2
               obtain ⟨rfl, rfl⟩ := h2
-              obtain ⟨hv1, hu⟩ := mutNode_spec fuel d c true _ s d1 s1 hv.1 h1
+              obtain ⟨hv1, hu⟩ := mutNode_spec w fuel d c true _ s d1 s1 hv.1 h1
               refine ⟨?_, hu⟩
               simp only [validSubs, hc, hv1, hv.2, Bool.and_self, List.map_cons, subVal, List.length_cons,
                 and_self]
             · rw [bind_ok] at h
               obtain ⟨r1, s1, h1, h2⟩ := h
-              obtain ⟨hr, hu⟩ := mutSubs_spec fuel rest cands _ s r1 s1 hv.2 h1
+              obtain ⟨hr, hu⟩ := mutSubs_spec w fuel k rest cands _ s r1 s1 hv.2 h1
               cases r1 with
               | inl l =>
                 simp only [] at h2 hr
@@ -490,8 +491,8 @@ mutual
                 exact ⟨trivial, hu⟩
 end
 
-theorem mutUniformOne_spec (fuel : Nat) (g : GSpec) (d : DNA) (s : St) (d' : DNA) (s' : St)
-    (hv : valid g d = true) (h : mutUniformOne fuel g d s = .ok (d', s')) :
+theorem mutUniformOne_spec (w : Where) (fuel : Nat) (g : GSpec) (d : DNA) (s : St) (d' : DNA) (s' : St)
+    (hv : valid g d = true) (h : mutUniformOne w fuel g d s = .ok (d', s')) :
     valid g d' = true ∧ s'.nextUid = s.nextUid := by
   simp only [mutUniformOne] at h
   split at h
@@ -499,7 +500,7 @@ theorem mutUniformOne_spec (fuel : Nat) (g : GSpec) (d : DNA) (s : St) (d' : DNA
   · rw [bind_ok] at h
     obtain ⟨i, s1, h1, h2⟩ := h
     obtain ⟨_, hu1⟩ := nextIdx_spec h1
-    obtain ⟨hv', hu2⟩ := mutNode_spec fuel d g false i s1 d' s' hv h2
+    obtain ⟨hv', hu2⟩ := mutNode_spec w fuel d g false i s1 d' s' hv h2
     exact ⟨hv', by rw [hu2, hu1]⟩
 
 theorem All2.imp {α β : Type} {R R' : α → β → Prop} (himp : ∀ a b, R a b → R' a b) :
@@ -600,13 +601,13 @@ theorem swapList_spec (cands : List GSpec) (l : List DNA) (i j : Nat) :
         simpa using this
 
 mutual
-  theorem swapAt_valid : ∀ (d : DNA) (g : GSpec) (coll : Bool) (c i j : Nat),
-      valid g d = true → valid g (swapAt g coll d c i j) = true
+  theorem swapAt_valid (w : Where) : ∀ (d : DNA) (g : GSpec) (coll : Bool) (c i j : Nat),
+      valid g d = true → valid g (swapAt w g coll d c i j) = true
     | .space ds, g, coll, c, i, j, hv => by
         cases g with
         | space es =>
           simp only [swapAt, valid] at hv ⊢
-          exact swapAtElems_valid ds es _ c i j hv
+          exact swapAtElems_valid w ds es _ c i j hv
         | choices k cands dist srt => simp [valid] at hv
         | float lo hi => simp [valid] at hv
     | .choices subs, g, coll, c, i, j, hv => by
@@ -627,7 +628,7 @@ mutual
                 fun hd => (List.Perm.nodup_iff hp).mpr (hnd hd), fun h => by cases h⟩
           · have hvs : validSubs cands subs = true := by
               rw [validSubs_eq_all, List.all_eq_true]; exact hall
-            obtain ⟨hvl, hvals, hll⟩ := swapAtSubs_valid subs cands (if (k == 1 || coll) = true then c else c - 1) i j hvs
+            obtain ⟨hvl, hvals, hll⟩ := swapAtSubs_valid w subs cands (if (!(k == 1 || coll) && w multiInfo) = true then c - 1 else c) i j hvs
             rw [valid_choices_iff]
             refine ⟨by rw [hll]; exact hlen, ?_, by rw [hvals]; exact hnd, by rw [hvals]; exact hsrt⟩
             rw [validSubs_eq_all, List.all_eq_true] at hvl
@@ -636,8 +637,8 @@ mutual
         cases g <;> simpa [swapAt] using hv
     | .sub b v d, g, coll, c, i, j, hv => by
         cases g <;> simp [valid] at hv
-  theorem swapAtElems_valid : ∀ (ds : List DNA) (es : List GSpec) (cl : Bool) (c i j : Nat),
-      validElems es ds = true → validElems es (swapAtElems es cl ds c i j) = true
+  theorem swapAtElems_valid (w : Where) : ∀ (ds : List DNA) (es : List GSpec) (cl : Bool) (c i j : Nat),
+      validElems es ds = true → validElems es (swapAtElems w es cl ds c i j) = true
     | [], es, cl, c, i, j, hv => by
         cases es <;> simpa [swapAtElems] using hv
     | d :: ds, es, cl, c, i, j, hv => by
@@ -648,14 +649,14 @@ mutual
           simp only [swapAtElems]
           split
           · simp only [validElems, Bool.and_eq_true]
-            exact ⟨swapAt_valid d e cl c i j hv.1, hv.2⟩
+            exact ⟨swapAt_valid w d e cl c i j hv.1, hv.2⟩
           · simp only [validElems, Bool.and_eq_true]
-            exact ⟨hv.1, swapAtElems_valid ds es cl _ i j hv.2⟩
-  theorem swapAtSubs_valid : ∀ (subs : List DNA) (cands : List GSpec) (c i j : Nat),
+            exact ⟨hv.1, swapAtElems_valid w ds es cl _ i j hv.2⟩
+  theorem swapAtSubs_valid (w : Where) : ∀ (subs : List DNA) (cands : List GSpec) (c i j : Nat),
       validSubs cands subs = true →
-      validSubs cands (swapAtSubs cands subs c i j) = true ∧
-      (swapAtSubs cands subs c i j).map subVal = subs.map subVal ∧
-      (swapAtSubs cands subs c i j).length = subs.length
+      validSubs cands (swapAtSubs w cands subs c i j) = true ∧
+      (swapAtSubs w cands subs c i j).map subVal = subs.map subVal ∧
+      (swapAtSubs w cands subs c i j).length = subs.length
     | [], cands, c, i, j, hv => by simp [swapAtSubs, validSubs]
     | .space _ :: rest, cands, c, i, j, hv => by simp [validSubs] at hv
     | .choices _ :: rest, cands, c, i, j, hv => by simp [validSubs] at hv
@@ -669,22 +670,22 @@ mutual
           rw [hc] at hv
           simp only [] at hv ⊢
           split
-          · have := swapAt_valid d cs true c i j hv.1
+          · have := swapAt_valid w d cs true c i j hv.1
             simp only [validSubs, hc, this, hv.2, Bool.and_self, List.map_cons, subVal, List.length_cons,
               and_self]
-          · obtain ⟨h1, h2, h3⟩ := swapAtSubs_valid rest cands (c - (swapCands cs true d).length) i j hv.2
+          · obtain ⟨h1, h2, h3⟩ := swapAtSubs_valid w rest cands (c - (swapCands w cs true d).length) i j hv.2
             simp only [validSubs, hc, hv.1, h1, Bool.and_self, List.map_cons, subVal, h2,
               List.length_cons, h3, and_self]
 end
 
-theorem mutSwapOne_spec (g : GSpec) (d : DNA) (s : St) (d' : DNA) (s' : St)
-    (hv : valid g d = true) (h : mutSwapOne g d s = .ok (d', s')) :
+theorem mutSwapOne_spec (w : Where) (g : GSpec) (d : DNA) (s : St) (d' : DNA) (s' : St)
+    (hv : valid g d = true) (h : mutSwapOne w g d s = .ok (d', s')) :
     valid g d' = true ∧ s'.nextUid = s.nextUid := by
   simp only [mutSwapOne] at h
   rw [bind_ok] at h
   obtain ⟨perm, s1, h1, h2⟩ := h
   obtain ⟨_, _, hu1⟩ := nextShuffle_spec h1
-  generalize findFirstUnsorted (swapCands g false d) perm = r at h2
+  generalize findFirstUnsorted (swapCands w g false d) perm = r at h2
   cases r with
   | none =>
     simp only [] at h2
@@ -703,7 +704,7 @@ theorem mutSwapOne_spec (g : GSpec) (d : DNA) (s : St) (d' : DNA) (s' : St)
     · simp only [] at h4
       rw [pure_ok] at h4
       obtain ⟨rfl, rfl⟩ := h4
-      exact ⟨swapAt_valid d g false _ _ _ hv, by rw [hu2, hu1]⟩
+      exact ⟨swapAt_valid w d g false _ _ _ hv, by rw [hu2, hu1]⟩
     · exact ((fail_ok _ _ _).mp h4).elim
 
 /-! ## The two mutators as operations -/
@@ -719,14 +720,33 @@ theorem all2_out {α β : Type} {R : α → β → Prop} {l : List α} {l' : Lis
     · obtain ⟨a, ha, hab⟩ := ih b hb
       exact ⟨a, List.mem_cons_of_mem _ ha, hab⟩
 
-/-- valid inputs: every child is valid, is a fresh object, and the counter only grows. -/
+/-- valid inputs: every child is valid, is a fresh object, and the counter only grows — for every
+`where` filter. -/
+theorem mutUniformW_spec (w : Where) (fuel : Nat) (g : GSpec) (pop : Pop) (st : St) (out : Pop) (st' : St)
+    (hp : ∀ x ∈ pop, valid g x.dna = true) (h : mutUniformW w fuel g pop st = .ok (out, st')) :
+    st.nextUid ≤ st'.nextUid ∧
+    ∀ y ∈ out, valid g y.dna = true ∧ st.nextUid ≤ y.uid ∧ y.uid < st'.nextUid := by
+  simp only [mutUniformW] at h
+  obtain ⟨hu, hall⟩ := mapChild_spec (mutUniformOne w fuel g) (fun _ d' => valid g d' = true) pop
+    (fun x hx s d' s' hd => mutUniformOne_spec w fuel g x.dna s d' s' (hp x hx) hd) st out st' h
+  refine ⟨by omega, ?_⟩
+  intro y hy
+  obtain ⟨x, _, hr⟩ := all2_out hall y hy
+  exact ⟨hr.1, hr.2.1, by rw [hu]; exact hr.2.2⟩
+
 theorem mutUniform_spec (fuel : Nat) (g : GSpec) (pop : Pop) (st : St) (out : Pop) (st' : St)
     (hp : ∀ x ∈ pop, valid g x.dna = true) (h : mutUniform fuel g pop st = .ok (out, st')) :
     st.nextUid ≤ st'.nextUid ∧
+    ∀ y ∈ out, valid g y.dna = true ∧ st.nextUid ≤ y.uid ∧ y.uid < st'.nextUid :=
+  mutUniformW_spec _ fuel g pop st out st' hp h
+
+theorem mutSwapW_spec (w : Where) (g : GSpec) (pop : Pop) (st : St) (out : Pop) (st' : St)
+    (hp : ∀ x ∈ pop, valid g x.dna = true) (h : mutSwapW w g pop st = .ok (out, st')) :
+    st.nextUid ≤ st'.nextUid ∧
     ∀ y ∈ out, valid g y.dna = true ∧ st.nextUid ≤ y.uid ∧ y.uid < st'.nextUid := by
-  simp only [mutUniform] at h
-  obtain ⟨hu, hall⟩ := mapChild_spec (mutUniformOne fuel g) (fun _ d' => valid g d' = true) pop
-    (fun x hx s d' s' hd => mutUniformOne_spec fuel g x.dna s d' s' (hp x hx) hd) st out st' h
+  simp only [mutSwapW] at h
+  obtain ⟨hu, hall⟩ := mapChild_spec (mutSwapOne w g) (fun _ d' => valid g d' = true) pop
+    (fun x hx s d' s' hd => mutSwapOne_spec w g x.dna s d' s' (hp x hx) hd) st out st' h
   refine ⟨by omega, ?_⟩
   intro y hy
   obtain ⟨x, _, hr⟩ := all2_out hall y hy
@@ -735,14 +755,7 @@ theorem mutUniform_spec (fuel : Nat) (g : GSpec) (pop : Pop) (st : St) (out : Po
 theorem mutSwap_spec (g : GSpec) (pop : Pop) (st : St) (out : Pop) (st' : St)
     (hp : ∀ x ∈ pop, valid g x.dna = true) (h : mutSwap g pop st = .ok (out, st')) :
     st.nextUid ≤ st'.nextUid ∧
-    ∀ y ∈ out, valid g y.dna = true ∧ st.nextUid ≤ y.uid ∧ y.uid < st'.nextUid := by
-  simp only [mutSwap] at h
-  obtain ⟨hu, hall⟩ := mapChild_spec (mutSwapOne g) (fun _ d' => valid g d' = true) pop
-    (fun x hx s d' s' hd => mutSwapOne_spec g x.dna s d' s' (hp x hx) hd) st out st' h
-  refine ⟨by omega, ?_⟩
-  intro y hy
-  obtain ⟨x, _, hr⟩ := all2_out hall y hy
-  exact ⟨hr.1, hr.2.1, by rw [hu]; exact hr.2.2⟩
+    ∀ y ∈ out, valid g y.dna = true ∧ st.nextUid ≤ y.uid ∧ y.uid < st'.nextUid :=
+  mutSwapW_spec _ g pop st out st' hp h
 
 end Pg.C14
-
